@@ -20,6 +20,10 @@ CLAIMS = {
          "Each generated (tree, thread count, schedule, constructor form) runs the real executor code on a runtime that records the declared dependencies and executes a generated linear extension "
          "(incl. full deferral past the creating frames); results must be bit-identical to the sequential executor, every conflicting access pair ordered/exclusive in the declared DAG for all "
          "extensions at once, and no dead variable read (ASan).", "3/C03"),
+ "C04": ("property-based testing of the rotation kernel against an extended-precision direct sum: calibrated error bounds per order, order-pair convergence (per case and campaign median), metamorphic relations (grouping, charge scaling/linearity, power-of-two box scaling)",
+         "Generated charged particle sets in cubic boxes, heights 1..6, orders 4/6/8/12, float and double, sequential, OpenMP (mock schedules), target/source and periodic (explicit image sum).", "3/C04"),
+ "C05": ("property-based testing of the uniform (Lagrange/FFT) kernel against an extended-precision direct sum: calibrated error bounds per order, order-pair convergence, metamorphic relations incl. regrouping (children delivered in several batches)",
+         "Generated charged particle sets, heights 1..6, orders 3/5/8, float and double, sequential, OpenMP (mock schedules), target/source and periodic variants.", "3/C05"),
  "C06": ("property-based testing: construction round trip against the model + byte snapshot metamorphic relation across execution",
          "Each index stored once in the model's leaf with bit-identical data, zero results/expansions, symbolic bytes unchanged by any execution.", "3/C06"),
  "C07": ("property-based testing: structural invariants through public accessors against the model's ancestor closure",
@@ -39,6 +43,8 @@ CLAIMS = {
          "Histories of in-place position edits, rebuild and execution; identity, data and accumulated results must survive, expansions reset, grouping equal to a fresh build, one more full interaction per execute.", "3/C13"),
  "C14": ("property-based testing: stateful operation sequences on 12 memory-block layouts with address-range/overlap invariants and byte-copy round trips; byte-copied tree groups compared through accessors and operators",
          "Generated layouts, counts around alignment boundaries and op sequences; invariants on every reachable element address; raw views of byte copies must be equivalent for accessors and for kernel operators.", "3/C14"),
+ "C15": ("sanitizer-instrumented property-based and schedule-generating campaigns (ASan incl. stack-use-after-return/scope, LSan per case, UBSan, libstdc++ and library assertions, pattern-initialised locals)",
+         "The generators of C01/C09/C10/C13 and the schedules of C03 replayed with every dynamic checker available in the image; any report, abort or leak is a violation, shrunk in fork-isolated mode.", "3/C15"),
  "C16": ("property-based testing: lookup results against a definitional Morton model, exhaustive index ranges on small levels",
          "Every index of small levels and generated/present/adjacent/out-of-range indices of large ones: found iff present, position correct, group accessors equal a linear scan.", "3/C16"),
  "C17": ("property-based testing: export arrays against the input rows and the per-particle results read through the leaf iterator",
